@@ -73,6 +73,42 @@ Proof.
 Qed.
 Print Assumptions C08_generated_try_push.
 
+(* ---------- the state updates of update_persisted and try_push ---------- *)
+Definition CAP : nat := Z.to_nat gen_BlockStore_CACHE_CAPACITY.
+
+Theorem C08_generated_try_push_state : forall chk s b, bss_ok (queued s) ->
+  gen_BlockStore_try_push_state chk s b = (fst (try_push CAP s b), Ok (snd (try_push CAP s b))).
+Proof.
+  intros chk s b Hq. unfold gen_BlockStore_try_push_state, try_push.
+  rewrite (C08_generated_next _ chk (queued s) Hq). cbn [slift sbind].
+  destruct (bs_next (queued s) =? bnum b); cbn [negb fst snd sret]; reflexivity.
+Qed.
+Print Assumptions C08_generated_try_push_state.
+
+Theorem C08_generated_update_persisted : forall chk s p,
+  bss_ok p -> bss_ok (persisted s) -> bss_ok (queued s) ->
+  gen_BlockStore_update_persisted chk s p =
+  match update_persisted CAP s p with
+  | Some s' => (s', Ok tt)
+  | None => (s, Err tt)
+  end.
+Proof.
+  intros chk s p Hp Hps Hq. unfold gen_BlockStore_update_persisted, update_persisted.
+  rewrite (C08_generated_next _ chk p Hp). cbn [slift sbind].
+  rewrite (C08_generated_next _ chk (persisted s) Hps). cbn [slift sbind].
+  destruct (bs_next p <? bs_next (persisted s)); [reflexivity|].
+  cbv zeta. cbn [queued persisted cache].
+  assert (Hq1 : bss_ok {| bfirst := bfirst p; blast := blast (queued s) |}).
+  { destruct Hp as [Hp1 _]. destruct Hq as [_ Hq2]. split; assumption. }
+  destruct (bfirst (queued s) <? bfirst p); cbn [sbind sret queued persisted cache].
+  - rewrite (C08_generated_next _ chk _ Hq1). cbn [slift sbind]. rewrite (C08_generated_next _ chk p Hp). cbn [slift sbind].
+    destruct (bs_next {| bfirst := bfirst p; blast := blast (queued s) |} <? bs_next p); cbn [sbind sret fst snd queued persisted cache]; reflexivity.
+  - rewrite (C08_generated_next _ chk (queued s) Hq). cbn [slift sbind]. rewrite (C08_generated_next _ chk p Hp). cbn [slift sbind].
+    destruct (bs_next (queued s) <? bs_next p); cbn [sbind sret fst snd queued persisted cache]; [reflexivity|].
+    destruct s; reflexivity.
+Qed.
+Print Assumptions C08_generated_update_persisted.
+
 (* non-vacuity: the boundary on which the two readings of "already persisted" differ
    (empty durable range at 0, front block 0, 101 cached blocks): nothing may be dropped. *)
 Example C08_generated_truncate_example :
